@@ -1,7 +1,7 @@
 /-
 C18  Telemetry is delivered at most once, well-formed, in bounded batches.
 -/
-import Gpa.Model.Telemetry
+import Gpa.Model.TelemetryXml
 namespace Gpa.Props.C18
 open Gpa.Telemetry Gpa.Text
 
@@ -222,6 +222,341 @@ theorem terminates_progress (c : Ctx) (e : Event) (rest : List Event) :
     (fill c [e] rest).2.length < (e :: rest).length := by
   have := fill_rest_le c [e] rest
   simp only [List.length_cons]; omega
+
+/-! ### the document structure does not depend on the events' text -/
+
+theorem stripPre_append (p rest : Str) : stripPre p (p ++ rest) = some rest := by
+  induction p with
+  | nil => cases rest <;> rfl
+  | cons c cs ih => simp [stripPre, ih]
+
+theorem takeUntil_append (q : Char) (a rest : Str) (h : ∀ c ∈ a, c ≠ q) : takeUntil q (a ++ q :: rest) = some (a, rest) := by
+  induction a with
+  | nil => simp [takeUntil]
+  | cons c cs ih =>
+    have hc : c ≠ q := h c (List.mem_cons_self ..)
+    simp only [List.cons_append, takeUntil, if_neg hc]
+    rw [ih (fun x hx => h x (List.mem_cons_of_mem _ hx))]
+
+/-- an escaped text contains no quote -/
+theorem escape_no_quote (v : Str) : ∀ c ∈ xmlEscape v, c ≠ '"' := by
+  intro c hc hq
+  have := escape_safe v c hc
+  subst hq
+  simp [isMarkup] at this
+
+theorem digit_ne_quote : ∀ d, d < 10 → digitChar d ≠ '"' := by decide
+
+theorem natStr_digits (n : Nat) : ∀ c ∈ natStr n, c ≠ '"' := by
+  induction n using Nat.strongRecOn with
+  | _ n ih =>
+    intro c hc
+    rw [natStr] at hc
+    split at hc
+    · rename_i h
+      simp only [List.mem_singleton] at hc
+      subst hc
+      exact digit_ne_quote n h
+    · rcases List.mem_append.mp hc with h1 | h1
+      · exact ih (n / 10) (by omega) c h1
+      · simp only [List.mem_singleton] at h1
+        subst h1
+        exact digit_ne_quote _ (Nat.mod_lt _ (by omega))
+
+/-- reading one element back: name, value and type exactly as written, provided none contains a quote -/
+theorem readParam_paramOf (name value ty rest : Str) (hn : ∀ c ∈ name, c ≠ '"') (hv : ∀ c ∈ value, c ≠ '"')
+    (ht : ∀ c ∈ ty, c ≠ '"') :
+    readParam (paramOf name value ty ++ rest) = some ({ name := name, value := value, ty := ty }, rest) := by
+  unfold readParam paramOf
+  simp only [List.append_assoc, List.singleton_append, List.cons_append, List.nil_append]
+  rw [stripPre_append]
+  simp only []
+  rw [takeUntil_append '"' name _ hn]
+  simp only []
+  rw [stripPre_append]
+  simp only []
+  rw [takeUntil_append '"' value _ hv]
+  simp only []
+  rw [stripPre_append]
+  simp only []
+  rw [takeUntil_append '"' ty _ ht]
+  simp only []
+  rw [stripPre_append]
+
+theorem paramStr_eq (name : String) (v : Str) : paramStr name v = paramOf name.toList (xmlEscape v) tyStr := by
+  unfold paramStr paramOf
+  simp only [String.toList_append, List.append_assoc]
+  rfl
+
+theorem paramNum_eq (name : String) (n : Nat) : paramNum name n = paramOf name.toList (natStr n) tyNum := by
+  unfold paramNum paramOf
+  simp only [String.toList_append, List.append_assoc]
+  rfl
+
+def attrOfTriple (t : Str × Str × Str) : Attr := { name := t.1, value := t.2.1, ty := t.2.2 }
+
+def noQuote (s : Str) : Prop := ∀ c ∈ s, c ≠ '"'
+
+theorem noQuote_of_all (s : Str) (h : s.all (fun ch => ch ≠ '"') = true) : noQuote s := by
+  intro c hc
+  have := List.all_eq_true.mp h c hc
+  simpa using this
+
+theorem readParams_list (l : List (Str × Str × Str)) (h : ∀ t ∈ l, noQuote t.1 ∧ noQuote t.2.1 ∧ noQuote t.2.2) :
+    readParams l.length (l.map fun t => paramOf t.1 t.2.1 t.2.2).flatten = some (l.map attrOfTriple) := by
+  induction l with
+  | nil => rfl
+  | cons t ts ih =>
+    have ht := h t (List.mem_cons_self ..)
+    simp only [List.map_cons, List.flatten_cons, List.length_cons, readParams]
+    rw [readParam_paramOf _ _ _ _ ht.1 ht.2.1 ht.2.2]
+    simp only []
+    rw [ih (fun x hx => h x (List.mem_cons_of_mem _ hx))]
+    rfl
+
+/-- the 23 parameters of an event as (name, written value, type): every text field is written escaped,
+every number in decimal -/
+def triples (c : Ctx) (e : Event) : List (Str × Str × Str) :=
+  [ ("OpcodeName".toList, xmlEscape e.timeStamp, tyStr),
+    ("KeywordName".toList, xmlEscape c.keywordName, tyStr),
+    ("TaskName".toList, xmlEscape e.taskName, tyStr),
+    ("TenantName".toList, xmlEscape c.tenantName, tyStr),
+    ("RoleName".toList, xmlEscape c.roleName, tyStr),
+    ("RoleInstanceName".toList, xmlEscape c.roleInstanceName, tyStr),
+    ("ContainerId".toList, xmlEscape c.containerId, tyStr),
+    ("ResourceGroupName".toList, xmlEscape c.resourceGroupName, tyStr),
+    ("SubscriptionId".toList, xmlEscape c.subscriptionId, tyStr),
+    ("VMId".toList, xmlEscape c.vmId, tyStr),
+    ("EventPid".toList, natStr (parseU64 e.pid), tyNum),
+    ("EventTid".toList, natStr (parseU64 e.tid), tyNum),
+    ("ImageOrigin".toList, natStr c.imageOrigin, tyNum),
+    ("ExecutionMode".toList, xmlEscape "ProxyAgent".toList, tyStr),
+    ("OSVersion".toList, xmlEscape c.osVersion, tyStr),
+    ("GAVersion".toList, xmlEscape e.version, tyStr),
+    ("RAM".toList, natStr c.ram, tyNum),
+    ("Processors".toList, natStr c.processors, tyNum),
+    ("EventName".toList, xmlEscape "MicrosoftAzureGuestProxyAgent".toList, tyStr),
+    ("CapabilityUsed".toList, xmlEscape e.level, tyStr),
+    ("Context1".toList, xmlEscape e.message, tyStr),
+    ("Context2".toList, xmlEscape e.timeStamp, tyStr),
+    ("Context3".toList, xmlEscape e.operationId, tyStr) ]
+
+/-- `to_xml_event` writes exactly these, in this order -/
+theorem params_eq (c : Ctx) (e : Event) : params c e = (triples c e).map fun t => paramOf t.1 t.2.1 t.2.2 := by
+  simp only [params, triples, List.map_cons, List.map_nil, paramStr_eq, paramNum_eq]
+
+theorem triple_noQuote (c : Ctx) (e : Event) : ∀ t ∈ triples c e, noQuote t.1 ∧ noQuote t.2.1 ∧ noQuote t.2.2 := by
+  intro t ht
+  simp only [triples, List.mem_cons, List.mem_nil_iff, or_false] at ht
+  rcases ht with h | h | h | h | h | h | h | h | h | h | h | h | h | h | h | h | h | h | h | h | h | h | h <;> subst h <;> dsimp only <;>
+    refine ⟨noQuote_of_all _ (by decide), ?_, noQuote_of_all _ (by decide)⟩ <;>
+    first | exact escape_no_quote _ | exact natStr_digits _
+
+/-- **C18(h)** the character data of an event reads back as exactly 23 parameters with the fixed names and
+types and the written values (`triples`), whatever text the event carries: the text cannot end an
+attribute, add a parameter or change a name -/
+theorem event_reads_back (c : Ctx) (e : Event) :
+    readParams 23 (params c e).flatten = some ((triples c e).map attrOfTriple) := by
+  rw [params_eq]
+  exact readParams_list (triples c e) (triple_noQuote c e)
+
+/-- **C18(i)** and the text is carried as data: decoding a written text value gives the field back
+(`unescape_escape`), e.g. the message -/
+theorem message_is_data (c : Ctx) (e : Event) :
+    ("Context1".toList, e.message) ∈ (triples c e).map fun t => (t.1, unescape t.2.1) := by
+  refine List.mem_map.mpr ⟨("Context1".toList, xmlEscape e.message, tyStr), ?_, ?_⟩
+  · simp only [triples, List.mem_cons, true_or, or_true]
+  · simp only [unescape_escape]
+
+/-! ### the outer document: CDATA sections end where the writer ended them -/
+
+/-- every `>` in the text directly follows a `/` (`prev` = the character before the text) -/
+def gtOk : Char → Str → Bool
+  | _, [] => true
+  | prev, c :: cs => (c != '>' || prev == '/') && gtOk c cs
+
+/-- no `]]>` anywhere -/
+def noEnd : Str → Bool
+  | c1 :: c2 :: c3 :: rest => !(c1 == ']' && c2 == ']' && c3 == '>') && noEnd (c2 :: c3 :: rest)
+  | _ => true
+
+def noGt (s : Str) : Prop := ∀ c ∈ s, c ≠ '>'
+
+theorem gtOk_seg (p : Char) (a rest : Str) (h : noGt a) : gtOk p (a ++ ' ' :: '/' :: '>' :: rest) = gtOk '>' rest := by
+  induction a generalizing p with
+  | nil => simp [gtOk]
+  | cons c cs ih =>
+    have hc : c ≠ '>' := h c (List.mem_cons_self ..)
+    simp only [List.cons_append, gtOk]
+    rw [ih c (fun x hx => h x (List.mem_cons_of_mem _ hx))]
+    simp [hc]
+
+theorem noEnd_of_gtOk (p : Char) (s : Str) (h : gtOk p s = true) : noEnd s = true := by
+  induction s generalizing p with
+  | nil => rfl
+  | cons c1 t ih =>
+    cases t with
+    | nil => rfl
+    | cons c2 t2 =>
+      cases t2 with
+      | nil => rfl
+      | cons c3 rest =>
+        simp only [gtOk, Bool.and_eq_true, Bool.or_eq_true, bne_iff_ne, ne_eq, beq_iff_eq] at h
+        simp only [noEnd, Bool.and_eq_true, Bool.not_eq_true', Bool.and_eq_false_iff, beq_eq_false_iff_ne, ne_eq]
+        refine ⟨?_, ih c1 (by simp only [gtOk, Bool.and_eq_true, Bool.or_eq_true, bne_iff_ne, ne_eq, beq_iff_eq]; exact ⟨h.2.1, h.2.2.1, h.2.2.2⟩)⟩
+        by_cases h3 : c3 = '>'
+        · rcases h.2.2.1 with h' | h'
+          · exact absurd h3 h'
+          · left; right; rw [h']; decide
+        · right; exact h3
+
+/-- a text without `]]>` followed by `]]>`: the reader stops exactly at the writer's terminator -/
+theorem takeCdata_append (d rest : Str) (p : Char) (h : gtOk p d = true) :
+    takeCdata (d ++ cdataEnd ++ rest) = some (d, rest) := by
+  induction d generalizing p with
+  | nil => simp [takeCdata, cdataEnd, stripPre]
+  | cons c cs ih =>
+    simp only [gtOk, Bool.and_eq_true] at h
+    have hnone : stripPre cdataEnd (c :: cs ++ cdataEnd ++ rest) = none := by
+      by_cases h1 : c = ']'
+      · subst h1
+        cases cs with
+        | nil => simp [stripPre, cdataEnd]
+        | cons c2 t =>
+          by_cases h2 : c2 = ']'
+          · subst h2
+            cases t with
+            | nil => simp [stripPre, cdataEnd]
+            | cons c3 t3 =>
+              have hh := h.2
+              simp only [gtOk, Bool.and_eq_true, Bool.or_eq_true, bne_iff_ne, ne_eq, beq_iff_eq] at hh
+              have h3 : c3 ≠ '>' := by
+                rcases hh.2.1 with h' | h'
+                · exact h'
+                · exact absurd h' (by decide)
+              simp [stripPre, cdataEnd, Ne.symm h3]
+          · simp [stripPre, cdataEnd, Ne.symm h2]
+      · simp [stripPre, cdataEnd, Ne.symm h1]
+    have := ih c h.2
+    simp only [List.cons_append, List.append_assoc] at hnone this ⊢
+    rw [takeCdata, hnone]
+    simp only []
+    rw [this]
+
+
+theorem natStr_isDigit (n : Nat) : ∀ c ∈ natStr n, c.isDigit = true := by
+  induction n using Nat.strongRecOn with
+  | _ n ih =>
+    intro c hc
+    rw [natStr] at hc
+    have hd : ∀ d, d < 10 → (digitChar d).isDigit = true := by decide
+    split at hc
+    · rename_i h
+      simp only [List.mem_singleton] at hc
+      subst hc
+      exact hd n h
+    · rcases List.mem_append.mp hc with h1 | h1
+      · exact ih (n / 10) (by omega) c h1
+      · simp only [List.mem_singleton] at h1
+        subst h1
+        exact hd _ (Nat.mod_lt _ (by omega))
+
+theorem natStr_noGt (n : Nat) : noGt (natStr n) := by
+  intro c hc hq
+  have := natStr_isDigit n c hc
+  subst hq
+  exact absurd this (by decide)
+
+theorem escape_noGt (v : Str) : noGt (xmlEscape v) := by
+  intro c hc hq
+  have := escape_safe v c hc
+  subst hq
+  simp [isMarkup] at this
+
+theorem noGt_of_all (s : Str) (h : s.all (fun ch => ch ≠ '>') = true) : noGt s := by
+  intro c hc
+  have := List.all_eq_true.mp h c hc
+  simpa using this
+
+theorem noGt_append {a b : Str} (ha : noGt a) (hb : noGt b) : noGt (a ++ b) := by
+  intro c hc
+  rcases List.mem_append.mp hc with h | h
+  · exact ha c h
+  · exact hb c h
+
+theorem gtOk_params (p : Char) (l : List (Str × Str × Str)) (h : ∀ t ∈ l, noGt t.1 ∧ noGt t.2.1 ∧ noGt t.2.2) :
+    gtOk p (l.map fun t => paramOf t.1 t.2.1 t.2.2).flatten = true := by
+  induction l generalizing p with
+  | nil => rfl
+  | cons t ts ih =>
+    have ht := h t (List.mem_cons_self ..)
+    have hq : noGt ['"'] := noGt_of_all _ (by decide)
+    have ha : noGt (pOpen ++ t.1 ++ ['"'] ++ pValue ++ t.2.1 ++ ['"'] ++ pType ++ t.2.2 ++ ['"']) :=
+      noGt_append (noGt_append (noGt_append (noGt_append (noGt_append (noGt_append (noGt_append (noGt_append
+        (noGt_of_all _ (by decide)) ht.1) hq) (noGt_of_all _ (by decide))) ht.2.1) hq) (noGt_of_all _ (by decide))) ht.2.2) hq
+    simp only [List.map_cons, List.flatten_cons]
+    have e1 : paramOf t.1 t.2.1 t.2.2 ++ (ts.map fun t => paramOf t.1 t.2.1 t.2.2).flatten =
+        (pOpen ++ t.1 ++ ['"'] ++ pValue ++ t.2.1 ++ ['"'] ++ pType ++ t.2.2 ++ ['"']) ++
+          ' ' :: '/' :: '>' :: (ts.map fun t => paramOf t.1 t.2.1 t.2.2).flatten := by
+      simp only [paramOf, pClose, List.append_assoc, List.cons_append, List.nil_append]
+    rw [e1, gtOk_seg p _ _ ha]
+    exact ih '>' (fun x hx => h x (List.mem_cons_of_mem _ hx))
+
+theorem triple_noGt (c : Ctx) (e : Event) : ∀ t ∈ triples c e, noGt t.1 ∧ noGt t.2.1 ∧ noGt t.2.2 := by
+  intro t ht
+  simp only [triples, List.mem_cons, List.mem_nil_iff, or_false] at ht
+  rcases ht with h | h | h | h | h | h | h | h | h | h | h | h | h | h | h | h | h | h | h | h | h | h | h <;> subst h <;> dsimp only <;>
+    refine ⟨noGt_of_all _ (by decide), ?_, noGt_of_all _ (by decide)⟩ <;>
+    first | exact escape_noGt _ | exact natStr_noGt _
+
+/-- **C18(j)** the character data of an event never contains `]]>`, whatever text the event carries -/
+theorem no_cdata_end_in_event (c : Ctx) (e : Event) : noEnd (params c e).flatten = true := by
+  rw [params_eq]
+  exact noEnd_of_gtOk ' ' _ (gtOk_params ' ' (triples c e) (triple_noGt c e))
+
+theorem eventClose_eq : eventClose = cdataEnd ++ eventTail := by decide
+
+theorem readEvents_all (c : Ctx) (evs : List Event) (tail : Str) :
+    readEvents evs.length (evs.flatMap (eventXml c) ++ tail) = some (evs.map fun e => (params c e).flatten, tail) := by
+  induction evs with
+  | nil => rfl
+  | cons e rest ih =>
+    simp only [List.flatMap_cons, List.length_cons, List.map_cons, readEvents, eventXml, eventClose_eq, List.append_assoc]
+    rw [stripPre_append]
+    simp only []
+    have hg : gtOk ' ' (params c e).flatten = true := by
+      rw [params_eq]; exact gtOk_params ' ' (triples c e) (triple_noGt c e)
+    have := takeCdata_append (params c e).flatten (eventTail ++ (rest.flatMap (eventXml c) ++ tail)) ' ' hg
+    simp only [List.append_assoc] at this
+    rw [this]
+    simp only []
+    rw [stripPre_append]
+    simp only []
+    rw [ih]
+
+/-- **C18(k)** a consumer reading the uploaded document finds exactly one character-data section per event,
+holding that event's parameters and nothing else: no event text can close a section early, open a new
+element or swallow the following events -/
+theorem document_reads_back (c : Ctx) (evs : List Event) :
+    readDoc evs.length (toXml c evs) = some (evs.map fun e => (params c e).flatten) := by
+  unfold readDoc toXml
+  simp only [List.append_assoc]
+  rw [stripPre_append]
+  simp only []
+  rw [readEvents_all]
+  simp
+
+/-- … and each section reads back as that event's 23 parameters -/
+theorem document_sections_read_back (c : Ctx) (evs : List Event) :
+    (readDoc evs.length (toXml c evs)).map (fun ds => ds.map (readParams 23)) =
+      some (evs.map fun e => some ((triples c e).map attrOfTriple)) := by
+  rw [document_reads_back]
+  simp only [Option.map_some, List.map_map]
+  congr 1
+  apply List.map_congr_left
+  intro e _
+  exact event_reads_back c e
+
 
 /-! non-vacuity -/
 example : xmlEscape ['a', '<', 'b', '>', '&', '\'', '"', ']', ']', '>'] =
